@@ -10,8 +10,8 @@ For the ecocredit family every entry names
   gen     : list of (cfg, behaviours, depth) to simulate for the quick tier
 """
 
-ECO_GEN_Q = [("credits_q", 40, 20), ("market_q", 60, 25)]
-ECO_GEN_T = [("credits_q", 300, 30), ("market_q", 500, 30)]
+ECO_GEN_Q = [("credits_g", 40, 20), ("market_g", 64, 25), ("basket_g", 32, 25), ("basket2_g", 24, 20)]
+ECO_GEN_T = [("credits_g", 300, 30), ("market_g", 500, 30), ("basket_g", 300, 30), ("basket2_g", 200, 25)]
 
 PROFILES = [
     {"unit": "1000000", "render": 0},   # whole credits, plain decimals
@@ -34,6 +34,48 @@ PROPS = {
         inv=["C02_Accounting"],
         step=["C02_OnlyIssuers", "C02_SealedFrozen"],
         tinv=[],
+    ),
+    "C03": dict(
+        family="eco",
+        mc=[("credits_q", 120), ("market_q", 300)],
+        inv=[],
+        step=["C03_Credits", "C03_Coins", "C03_Block"],
+        tinv=[],
+    ),
+    "C05": dict(
+        family="eco",
+        mc=[("basket_q", 600)],
+        inv=["C05_Backed"],
+        step=["C05_PutMints", "C05_TakeBurns", "C05_OnlyPutTake"],
+        tinv=["T_C05_ChainInvariantAgrees"],
+    ),
+    "C06": dict(
+        family="eco",
+        mc=[("market_q", 300)],
+        inv=["C06_Escrow", "C06_OrderWellFormed"],
+        step=["C06_DenomAllowedAtWrite"],
+        tinv=["T_C06_OrderQuantitiesWellFormed"],
+    ),
+    "C07": dict(
+        family="eco",
+        mc=[("market_q", 300)],
+        inv=[],
+        step=["C07_Orders", "C07_Credits", "C07_Coins", "C07_NoOtherCoins"],
+        tinv=[],
+    ),
+    "C11": dict(
+        family="eco",
+        mc=[("basket_q", 600)],
+        inv=[],
+        step=["C11_PutOnlyIf", "C11_PutIf", "C11_OldestFirst", "C11_AutoRetire"],
+        tinv=[],
+    ),
+    "C12": dict(
+        family="eco",
+        mc=[("market_q", 300)],
+        inv=["C12_NoneExpired"],
+        step=["C12_Expiry", "C12_NoBuyExpired", "C12_ExpirationAsRequested"],
+        tinv=["T_C12_BlockNeverFails"],
     ),
     "C04": dict(
         family="eco",
